@@ -1,7 +1,8 @@
 ------------------------------ MODULE MC_Heap ------------------------------
 (* Bounded instance of Heap.tla: every container nesting up to Depth over {list, dict, tuple, set, Optional} with int   *)
 (* and enum leaves, in three flavours (adapted / raw = still text / bad = a leaf that is rejected after an earlier one   *)
-(* was already converted), as the value of a typed key `v` at the top level or inside a nested group `g`, next to a      *)
+(* was already converted), as the value of a typed key `v` at the top level, inside a nested group `g`, or in the parser   *)
+(* of a sub-command of a root parser that has nothing but sub-commands, next to a                                         *)
 (* second key `w: Tuple[int, List[int]]` (raw unless the flavour is adapted); the argument is a dict or a Namespace; every public operation.  One state per  *)
 (* case.  TLC evaluates the Alg layer on the case, checks the invariants that relate it to the frame property, and       *)
 (* prints the case with the verdict of the Alg layer (flagged: an in-place write reaches the caller's objects).          *)
@@ -45,24 +46,35 @@ Build(T, fl, h, n, j) ==
        IN [h |-> Put(e2.h, Id(n), Cell(T.k, <<<<k1, e1.c>>, <<k2, e2.c>>>>)), c |-> Rf(Id(n)), n |-> e2.n]
 
 TW == TTup(TC("list", TInt))
-\* the argument: root container (dict / ns) { [g: {] v: value [}], w: (1, ['7']) }; for the operations of OnDefaults
-\* the node dest -> declared default { v | g.v: value, w: ... }
-Case(T, fl, op, root, grp) ==
+\* the argument, by placement pl of the typed keys:
+\*   "top"  { v: value, w: (1, ['7']) }
+\*   "grp"  { g: { v: value }, w: ... }                         v inside a nested group
+\*   "sub"  { subcommand: "s", s: { v: value, w: ... } }        a ROOT PARSER THAT HAS ONLY SUB-COMMANDS: every typed key lives in
+\*          the parser of sub-command s (the root has no component of its own; instantiate_classes etc. recurse, _core.py:1252-1254)
+\* for the operations of OnDefaults the node dest -> declared default { v | g.v: value, w: ... }
+Case(T, fl, op, root, pl) ==
   LET bv == Build(T, fl, << >>, 1, 1)
       bw == Build(TW, IF fl = "adapted" THEN "adapted" ELSE "raw", bv.h, bv.n, 3)
       flat == op \in OnDefaults
-      hg == IF grp /\ ~flat THEN Put(bw.h, Id(bw.n), Cell(root, <<<<"v", bv.c>>>>)) ELSE bw.h
-      ng == IF grp /\ ~flat THEN bw.n + 1 ELSE bw.n
-      top == IF flat THEN <<<<IF grp THEN "g.v" ELSE "v", bv.c>>, <<"w", bw.c>>>>
-             ELSE IF grp THEN <<<<"g", Rf(Id(bw.n))>>, <<"w", bw.c>>>> ELSE <<<<"v", bv.c>>, <<"w", bw.c>>>>
-  IN [T |-> T, fl |-> fl, op |-> op, root |-> root, grp |-> grp,
+      inner == IF pl = "sub" THEN <<<<"v", bv.c>>, <<"w", bw.c>>>> ELSE <<<<"v", bv.c>>>>
+      nest == pl # "top" /\ ~flat
+      hg == IF nest THEN Put(bw.h, Id(bw.n), Cell(root, inner)) ELSE bw.h
+      ng == IF nest THEN bw.n + 1 ELSE bw.n
+      top == IF flat THEN <<<<IF pl = "grp" THEN "g.v" ELSE "v", bv.c>>, <<"w", bw.c>>>>
+             ELSE IF pl = "grp" THEN <<<<"g", Rf(Id(bw.n))>>, <<"w", bw.c>>>>
+             ELSE IF pl = "sub" THEN <<<<"subcommand", Sc("s", "str")>>, <<"s", Rf(Id(bw.n))>>>>
+             ELSE <<<<"v", bv.c>>, <<"w", bw.c>>>>
+      pv == IF flat THEN <<IF pl = "grp" THEN "g.v" ELSE "v">> ELSE IF pl = "grp" THEN <<"g", "v">> ELSE IF pl = "sub" THEN <<"s", "v">> ELSE <<"v">>
+      pw == IF pl = "sub" /\ ~flat THEN <<"s", "w">> ELSE <<"w">>
+  IN [T |-> T, fl |-> fl, op |-> op, root |-> root, pl |-> pl,
       h |-> Put(hg, Id(ng), Cell(root, top)), arg |-> Rf(Id(ng)), n |-> ng + 1,
-      keys |-> <<[p |-> IF flat THEN <<IF grp THEN "g.v" ELSE "v">> ELSE IF grp THEN <<"g", "v">> ELSE <<"v">>, T |-> T, d |-> 1],
-                 [p |-> <<"w">>, T |-> TW, d |-> 2]>>]
+      keys |-> <<[p |-> pv, T |-> T, d |-> 1], [p |-> pw, T |-> TW, d |-> 2]>>]
 
-Cases == {Case(T, fl, op, root, grp) : T \in Types(Depth), fl \in Flavours, op \in Ops, root \in {"dict", "ns"}, grp \in BOOLEAN}
-\* only parse_object takes a dict; a Namespace is what every other operation is given
-Legal(c) == c.root = "ns" \/ c.op = "parse_object"
+Cases == {Case(T, fl, op, root, pl) : T \in Types(Depth), fl \in Flavours, op \in Ops, root \in {"dict", "ns"}, pl \in {"top", "grp", "sub"}}
+\* only parse_object takes a dict; a Namespace is what every other operation is given; the declared defaults of a
+\* sub-command parser are exercised by the random histories, not here (the copying operations neither)
+Legal(c) == (c.root = "ns" \/ c.op = "parse_object")
+            /\ (c.pl # "sub" \/ c.op \in {"parse_object", "validate", "dump", "save", "instantiate_classes"})
 
 VARIABLE c
 Init == c \in {x \in Cases : Legal(x)}
@@ -115,7 +127,7 @@ Idempotent ==
   (c.op = "validate" /\ Run.ok) =>
      LET again == AlgOp("validate", Run.h, c.arg, c.keys, 9000) IN again.ok /\ ValueFrame(Run.h, Roots, again.h, Roots)
 
-EmitCase == Emit => PrintT(ToJson([T |-> c.T, fl |-> c.fl, op |-> c.op, root |-> c.root, grp |-> c.grp, h |-> c.h, arg |-> c.arg,
+EmitCase == Emit => PrintT(ToJson([T |-> c.T, fl |-> c.fl, op |-> c.op, root |-> c.root, pl |-> c.pl, h |-> c.h, arg |-> c.arg,
                                    keys |-> c.keys, flagged |-> ~Holds, value |-> ~ValueFrame(c.h, Roots, Run.h, Roots), ok |-> Run.ok,
                                    touched |-> Cardinality(Touched(c.h, Run.h))]))
 =============================================================================
